@@ -468,6 +468,38 @@ class G:
     def any_param(self, e):
         return any(x[0] == "param" for x in walk(e))
 
+    def _inline_predicate(self, e):
+        """call of a crate fn `fn p(a, b) -> bool { a <= b }` (one comparison of parameters / constants, no other effect) ->
+        the comparison over the call's arguments"""
+        if len(e) < 5 or not isinstance(e[4], dict):
+            return None
+        hb = self.f.crate_fn_for_call(e[4])
+        if hb is None or hb.kind == "Closure" or not hb.blocks or hb.has_loop() or str(hb.locals[0]) != "bool" or any(True for _ in hb.calls()):
+            return None
+        hd = Dfx(hb)
+        rets = [strip(hd.rvalue(st["rv"])) for _, _, st in hb.stmts() if st["k"] == "assign" and st["p"]["local"] == 0 and not st["p"]["proj"]]
+        if len(rets) != 1:
+            return None
+        r = rets[0]
+        neg = False
+        while r[0] == "un" and r[1] == "Not":
+            neg = not neg; r = strip(r[2])
+        if r[0] != "bin" or r[1] not in ("Lt", "Le", "Gt", "Ge", "Eq", "Ne"):
+            return None
+
+        def sub(x):
+            x = strip(x)
+            if x[0] == "param" and 1 <= x[1] <= len(e[3]):
+                return e[3][x[1] - 1]
+            if x[0] == "const":
+                return x
+            return None
+        l, rr = sub(r[2]), sub(r[3])
+        if l is None or rr is None:
+            return None
+        out = ("bin", r[1], l, rr)
+        return ("un", "Not", out) if neg else out
+
     def guards(self):
         """(block, op, lhs expr, rhs expr, ok successor) for comparisons one of whose edges can only panic;
         op is normalised to the fact that holds on the surviving edge"""
@@ -498,6 +530,12 @@ class G:
             while e[0] == "un" and e[1] == "Not":
                 neg = not neg
                 e = strip(e[2])
+            if e[0] == "call":
+                # `assert!(is_within(end_col, parent_cols))`: a crate predicate whose body is one comparison of its parameters
+                e = self._inline_predicate(e) or e
+                while e[0] == "un" and e[1] == "Not":
+                    neg = not neg
+                    e = strip(e[2])
             if e[0] != "bin" or e[1] not in ("Lt", "Le", "Gt", "Ge", "Eq", "Ne"):
                 continue
             tm = dict((int(a), b2) for a, b2 in t["targets"])
@@ -629,6 +667,8 @@ class G:
                 if a["k"] in ("copy", "move") and self.mentions_param(self.d.expr(a), pp, bi):
                     if nm in CHECKED_IDIOM_CALLS or (fn and fn["path"] == "core::mem::swap"):
                         continue
+                    if fn and t.get("dest") and self._inline_predicate(("call", fn.get("path"), nm, [self.d.expr(a_) for a_ in t["args"]], fn)) is not None:
+                        continue      # a pure comparison predicate: the guard itself, not a use
                     out.append((bi, t["span"], "call:" + nm, None))
                     break
         return out
